@@ -26,6 +26,8 @@ def run(prog, chk):
         "components are only resolved into contours by util.decomposeCompositeGlyph; no other decomposing pen or component removal outside reviewed functions (R15.6, shared with C01 / C02)",
         "per-run accumulators of the interpolatable filters are per master inside the loop over the glyph sets: a name-keyed memo shared by all masters would let the first master's transformations stand for the others (R15.7, shared with C09)",
     ]
+    chk.decided += ["the component / transform filters keep nothing between calls outside their per-call context: a flattening / decomposition result remembered on the filter object would be replayed "
+                    "for another font whose same-named glyphs are built differently (R15.8 = R14.2 = R08.8)"]
     chk.not_decided += ["affine arithmetic and exactness", "rendering equality itself"]
     chk.guard(c01.r012, prog, chk, "R15.1")
     chk.guard(r151b, prog, chk)
@@ -36,6 +38,8 @@ def run(prog, chk):
     chk.guard(r155, prog, chk)
     from .c09 import check_master_isolation
     chk.guard(check_master_isolation, prog, chk, "R15.7")
+    from .c14 import check_no_filter_state
+    chk.guard(lambda prog_, chk_: (check_no_filter_state(prog_, chk_, "R15.8"), None)[1], prog, chk)
 
 
 # ----------------------------------------------------------------------------- decomposition is done in one place
@@ -390,6 +394,10 @@ def r155(prog, chk):
 
 
 MUTANTS = [
+    M("flattening memoised in a dict kept on the filter object and filled by the helper (seeded C15j)", "ufo2ft/filters/flattenComponents.py", "FlattenComponentsFilter.filter",
+      "return _flattenGlyphComponents(glyph, self.context.glyphSet)", "return _note(_flattenGlyphComponents(glyph, self.context.glyphSet), glyph, self._flattened)", rule="R15.8",
+      also=(("ufo2ft/filters/flattenComponents.py", "FlattenComponentsFilter", "<add-method>", "def start(self):\n    self._flattened = {}\n"),
+            ("ufo2ft/filters/flattenComponents.py", "", "<append-module>", "def _note(result, glyph, cache):\n    cache[glyph.name] = result\n    return result\n"))),
     M("pure composites on shifted bases are not redrawn (seeded C15i)", "ufo2ft/filters/transformations.py", "TransformationsFilter.filter",
       "rec.replay(filterpen)", "if len(glyph) or any(c.baseGlyph not in modified for c in glyph.components):\n    rec.replay(filterpen)", rule="R15.5"),
     M("advance only transformed for glyphs with an outline", "ufo2ft/filters/transformations.py", "TransformationsFilter.filter",
